@@ -25,7 +25,23 @@ def gen_keys(rng, n):
     return [rng.randrange(100000) for _ in range(n)]
 
 
+def gen_op_many(rng, elems):
+    """>= 17 threads (so >= 17 locally sorted runs for multisequence_partition), 2-4 distinct keys"""
+    n = rng.randrange(40, 200)
+    threads = rng.choice([17, 17, 18, 20, 24, 32, 33, 40])
+    variant = rng.choice(["s", "s", "u"])
+    cmp = rng.choice(["lt", "lt", "gt", "half"])
+    split = rng.choice(["exact", "exact", "sampling"])
+    nv = rng.choice([2, 2, 3, 4])
+    keys = [rng.randrange(nv) for _ in range(n)]
+    if cmp == "half":
+        keys = [2 * k + rng.randrange(2) for k in keys]
+    return f"ms {variant} {cmp} {split} {threads} {rng.choice([1, 2, 10])} {rng.choice(elems)} " + ",".join(str(k) for k in keys)
+
+
 def gen_op(rng, tier, elems=("pod", "log", "log", "own", "own")):
+    if rng.random() < 0.06:
+        return gen_op_many(rng, elems)
     r = rng.random()
     if r < 0.08:
         n = rng.choice([0, 1, 2])
@@ -52,6 +68,7 @@ def gen_op(rng, tier, elems=("pod", "log", "log", "own", "own")):
 
 class C06(flow.Spec):
     pid = "C06"
+    source_files = ('tlx/sort/parallel_mergesort.hpp', 'tlx/algorithm/multiway_merge_splitting.hpp', 'tlx/algorithm/multisequence_partition.hpp')
     harness = dict(name="c06", sources=["c06.cpp"], repo_sources=["tlx/algorithm/parallel_multiway_merge.cpp"])
     nontrivial_rule = ("an `ms` operation is non-trivial when >= 2 threads merged a non-empty window and the sorted "
                        "result has equivalent keys that came from different thread slices on both sides of a merge "
@@ -84,13 +101,15 @@ class C06(flow.Spec):
     def cases(self, ctx, seed, tier, round_no=0):
         rng = random.Random(seed * 1000003 + round_no * 7919 + 6)
         n = 1500 if tier == "quick" else 10000
+        if tier != "quick" and ctx.tier == "quick":
+            n = 4000          # deeper validation requested by the flow (modelled sources changed) inside the quick tier
         cs = []
         for i in range(n):
             lines = [f"case c{round_no}_{i}"]
             for _ in range(rng.choice([1, 2, 3])):
                 lines.append(gen_op(rng, tier))
             cs.append(lines)
-        if tier != "quick" and round_no == 0:
+        if tier != "quick" and ctx.tier != "quick" and round_no == 0:
             self._tsan(ctx, seed)
         return cs
 
